@@ -822,3 +822,187 @@ pub fn count_lines(ns: &[Node]) -> usize {
         })
         .sum()
 }
+
+
+// ---- structural shrinking of documents (second pass after the tape shrink) ---------------------------------------
+
+fn count_nodes(ns: &[Node]) -> usize {
+    ns.iter().map(|n| 1 + if let Node::Block { kids, .. } = n { count_nodes(kids) } else { 0 }).sum()
+}
+
+/// apply `f` to the node with pre-order index `k`; returns the rewritten list
+fn rewrite_at(ns: &[Node], k: &mut isize, f: &dyn Fn(&Node) -> Vec<Node>) -> Vec<Node> {
+    let mut out = vec![];
+    for n in ns {
+        if *k == 0 {
+            *k -= 1;
+            out.extend(f(n));
+            continue;
+        }
+        *k -= 1;
+        match n {
+            Node::Block { indent, open_lead, elem, open_trail, kids, close_indent, close_lead, close_trail } => {
+                let kids2 = rewrite_at(kids, k, f);
+                out.push(Node::Block { indent: indent.clone(), open_lead: open_lead.clone(), elem: elem.clone(), open_trail: open_trail.clone(), kids: kids2, close_indent: close_indent.clone(), close_lead: close_lead.clone(), close_trail: close_trail.clone() });
+            }
+            other => out.push(other.clone()),
+        }
+    }
+    out
+}
+
+/// Smaller variants of a document: one node deleted, one block replaced by its children, an inline /
+/// row / nest line replaced by a plain line, a block's shared-line text dropped.
+pub fn shrink_candidates(doc: &Doc) -> Vec<Doc> {
+    let n = count_nodes(&doc.nodes);
+    let mut v = vec![];
+    let mk = |nodes: Vec<Node>| Doc { nodes, final_newline: doc.final_newline, unit: doc.unit.clone() };
+    for i in 0..n {
+        let mut k = i as isize;
+        v.push(mk(rewrite_at(&doc.nodes, &mut k, &|_| vec![])));
+    }
+    for i in 0..n {
+        let mut k = i as isize;
+        let mut changed = false;
+        let nodes = rewrite_at(&doc.nodes, &mut k, &|n| match n {
+            Node::Block { kids, .. } => kids.clone(),
+            Node::Inline { pre, content, post, .. } => vec![Node::Line(format!("{pre}{content}{post}"))],
+            Node::Row { pre, cells } => {
+                if cells.len() > 1 {
+                    vec![Node::Row { pre: pre.clone(), cells: cells[..cells.len() - 1].to_vec() }]
+                } else {
+                    vec![Node::Line(pre.clone())]
+                }
+            }
+            Node::Nest { pre, outer, a, b, c, post, .. } => vec![Node::Inline { pre: pre.clone(), elem: outer.clone(), content: format!("{a}{b}{c}"), post: post.clone() }],
+            other => vec![other.clone()],
+        });
+        if nodes != doc.nodes {
+            changed = true;
+        }
+        if changed {
+            v.push(mk(nodes));
+        }
+    }
+    for i in 0..n {
+        let mut k = i as isize;
+        let nodes = rewrite_at(&doc.nodes, &mut k, &|n| match n {
+            Node::Block { indent, elem, kids, close_indent, open_lead, open_trail, close_lead, close_trail } if !(open_lead.is_empty() && open_trail.is_empty() && close_lead.is_empty() && close_trail.is_empty()) => {
+                vec![Node::Block { indent: indent.clone(), open_lead: String::new(), elem: elem.clone(), open_trail: String::new(), kids: kids.clone(), close_indent: close_indent.clone(), close_lead: String::new(), close_trail: String::new() }]
+            }
+            other => vec![other.clone()],
+        });
+        if nodes != doc.nodes {
+            v.push(mk(nodes));
+        }
+    }
+    if doc.final_newline {
+        v.push(Doc { nodes: doc.nodes.clone(), final_newline: false, unit: doc.unit.clone() });
+    }
+    v
+}
+
+/// Greedy structural minimisation: keep applying the first candidate on which `fails` still holds.
+pub fn minimize_doc<F: Fn(&Doc) -> bool>(doc: &Doc, fails: F) -> Doc {
+    let mut cur = doc.clone();
+    let mut budget = 3000usize;
+    'outer: loop {
+        for cand in shrink_candidates(&cur) {
+            if budget == 0 {
+                break 'outer;
+            }
+            budget -= 1;
+            if fails(&cand) {
+                cur = cand;
+                continue 'outer;
+            }
+        }
+        break;
+    }
+    cur
+}
+
+
+// ---- explicit domain predicate (the oracles must not rely on the generator alone: structural shrinking
+// and hand-written corpus files can produce any document) -----------------------------------------------------------
+
+#[derive(Clone, Debug)]
+pub struct Domain {
+    pub tags_on_wrappers: bool,
+    pub blank_wrappers: bool,
+    /// elements sharing lines with code / inline elements
+    pub shared_lines: bool,
+    /// single-line unwrap-block elements in otherwise block-style documents
+    pub single_line_unwrap: bool,
+    pub nested_unwrap: bool,
+    pub unwrap_tags_shared: bool,
+    pub first_byte_newline: bool,
+    pub unwrap: bool,
+}
+
+pub fn in_domain(r: &Rendered, d: &Domain) -> Result<(), &'static str> {
+    if !d.first_byte_newline && r.src.starts_with('\n') {
+        return Err("domain:first-byte-is-line-break");
+    }
+    let line_text = |l: usize| &r.src[r.lines[l].0..r.lines[l].1];
+    for (i, e) in r.elems.iter().enumerate() {
+        if !d.unwrap && e.unwrap {
+            return Err("domain:unwrap-block-attribute");
+        }
+        let single_line = e.open_line == e.close_line;
+        if !d.shared_lines {
+            let ok = if single_line { d.single_line_unwrap && e.unwrap } else { e.tags_alone };
+            if !ok {
+                return Err("domain:not-block-style");
+            }
+        }
+        if !e.unwrap || single_line {
+            continue;
+        }
+        if !e.tags_alone && !d.unwrap_tags_shared {
+            return Err("domain:unwrap-tags-share-a-line");
+        }
+        let between = e.close_line - e.open_line - 1;
+        if between >= 2 {
+            for w in [e.open_line + 1, e.close_line - 1] {
+                if !d.tags_on_wrappers && r.elems.iter().enumerate().any(|(k, o)| k != i && (o.open_line == w || o.close_line == w)) {
+                    return Err("domain:tag-on-wrapper-line");
+                }
+                if !d.blank_wrappers && line_text(w).chars().all(|c| c == ' ' || c == '\t') {
+                    return Err("domain:blank-wrapper-line");
+                }
+            }
+        } else if !d.tags_on_wrappers && between == 1 {
+            let w = e.open_line + 1;
+            if r.elems.iter().enumerate().any(|(k, o)| k != i && (o.open_line == w || o.close_line == w)) {
+                return Err("domain:tag-on-wrapper-line");
+            }
+        }
+        if !d.nested_unwrap {
+            let mut p = e.parent;
+            while let Some(q) = p {
+                if r.elems[q].unwrap && r.elems[q].open_line != r.elems[q].close_line {
+                    return Err("domain:nested-unwrap");
+                }
+                p = r.elems[q].parent;
+            }
+        }
+    }
+    Ok(())
+}
+
+impl Opts {
+    /// the domain the generator options promise
+    pub fn domain(&self) -> Domain {
+        Domain {
+            tags_on_wrappers: self.tags_on_wrappers,
+            blank_wrappers: self.blank_wrappers,
+            shared_lines: self.inline,
+            single_line_unwrap: self.single_line_unwrap,
+            nested_unwrap: self.nested_unwrap,
+            unwrap_tags_shared: self.unwrap_tags_shared,
+            first_byte_newline: self.first_line_empty_pct > 0,
+            unwrap: self.unwrap_pct > 0,
+        }
+    }
+}
